@@ -121,7 +121,16 @@ def c_pan7(unit):
     return {"fired": bool(bad), "good_silent": not good and bool(seen), "detail": [x.msg[:140] for x in bad[:1]]}
 
 
+def c_syn2(unit):
+    import engine_tab2
+    r = engine_tab2.syn2(_ctx(unit), unit=unit, grammars=[("control", "poscontrol::Cur2")])
+    bad = [x for x in r.reports if "syn2_bad" in x.fn]
+    good = [x for x in r.reports if "syn2_good" in x.fn]
+    seen = [i for i in r.instances if "syn2_good" in i["what"]]
+    return {"fired": bool(bad), "good_silent": not good and bool(seen), "detail": [x.msg[:140] for x in bad[:1]]}
+
+
 CONTROLS = {
     "PUR-1": c_pur1, "PUR-2": c_pur2, "PUR-3": c_pur3, "PAN-1": c_pan1, "CLI-1": c_cli1, "ERR-1": c_err1,
-    "FLW-guard": c_flw_guard, "SYN-1": c_syn1, "PAN-3": c_pan3, "BIT": c_bit, "PAN-7": c_pan7,
+    "FLW-guard": c_flw_guard, "SYN-1": c_syn1, "PAN-3": c_pan3, "BIT": c_bit, "PAN-7": c_pan7, "SYN-2": c_syn2,
 }
